@@ -390,12 +390,13 @@ class ExprMixin:
         sub = st.fork()
         sub.events = st.events      # share the log
         iters = []
+        filters = []
         for gen in node.generators:
             it = self.eval(gen.iter, sub)
             iters.append(P(it) if not isinstance(it, Tup) else it)
             self.bind_loop_target(gen.target, it, sub, gen)
             for cond in gen.ifs:
-                self.eval(cond, sub)
+                filters.append(self.eval(cond, sub))
         self.loop_depth += 1
         self.comp_depth = getattr(self, 'comp_depth', 0) + 1
         try:
@@ -403,6 +404,9 @@ class ExprMixin:
         finally:
             self.loop_depth -= 1
             self.comp_depth -= 1
+        if filters:
+            # a filtered comprehension is not the sequence of all elements: keep the filter in the term
+            return app(kind, *elts, *iters, Tup([Const('if')] + [f if isinstance(f, (Poly, Tup, Const)) else P(f) for f in filters]))
         return app(kind, *elts, *iters)
 
     def assign_target_expr(self, target, value, st, node):
